@@ -1,5 +1,6 @@
 """C20 - lanelet arc-length geometry and successor-route enumeration."""
 import math
+import warnings
 import sys
 
 import numpy as np
@@ -39,7 +40,8 @@ def s_arclength(tier):
                                                                "frac"]),
                                                st.integers(0, 20), st.floats(0, 1),
                                                st.sampled_from([1e-12, -1e-12, 1e-9, -1e-9, 1e-6])),
-                                    min_size=1, max_size=6)).map(lambda t: {"ll": strip(t[0]), "q": t[1]})
+                                    min_size=1, max_size=6), st.integers(0, 11)).map(
+        lambda t: {"ll": strip(t[0]), "q": t[1], "drawn": t[2] == 0})
 
 
 def strip(ll):
@@ -80,8 +82,41 @@ def check_arclength(r, ctx):
         if geom.dist(c[i - 1], c[i]) < 1e-6:
             ctx.discard("coincident-vertices")
     lan = make_lanelet(ll)
+    if r.get("drawn"):
+        lan = draw_behind_a_light(lan, ll)
+        ctx.label("drawn-before-queries")
     if validate_arclength(lan, ll, r["q"], ctx):
         ctx.nontrivial()
+
+
+def draw_behind_a_light(lan, ll):
+    """Ordinary prior use of the lanelet: it is part of a network, follows a lanelet with a traffic light, and the
+    network has been drawn (drawing only reads)."""
+    import matplotlib
+    matplotlib.use("Agg")
+    from matplotlib.backends.backend_agg import FigureCanvasAgg
+    from matplotlib.figure import Figure
+    from commonroad.scenario.traffic_light import (TrafficLight, TrafficLightCycle, TrafficLightCycleElement,
+                                                   TrafficLightState)
+    from commonroad.visualization.mp_renderer import MPRenderer
+    l0, c0, r0 = (np.array(ll[k][0], dtype=float) for k in ("left", "center", "right"))
+    back = np.array(ll["center"][0], dtype=float) - np.array(ll["center"][1], dtype=float)
+    back = 5.0 * back / np.linalg.norm(back)
+    pre = Lanelet(np.array([l0 + back, l0]), np.array([c0 + back, c0]), np.array([r0 + back, r0]), 2, successor=[1],
+                  traffic_lights={7})
+    lan.predecessor = [2]
+    light = TrafficLight(7, c0 + np.array([0.5, 0.5]), TrafficLightCycle(
+        [TrafficLightCycleElement(TrafficLightState.RED, 2), TrafficLightCycleElement(TrafficLightState.GREEN, 2)]))
+    net = LaneletNetwork.create_from_lanelet_list([pre, lan], cleanup_ids=False)
+    net.add_traffic_light(light, {2})
+    fig = Figure(figsize=(3, 2), dpi=40)
+    FigureCanvasAgg(fig)
+    rnd = MPRenderer(ax=fig.add_subplot(111))
+    with warnings.catch_warnings():
+        warnings.simplefilter("ignore")
+        net.draw(rnd)
+        rnd.render()
+    return net.find_lanelet_by_id(1)     # (the network works on its own copies of the lanelets it was given)
 
 
 def validate_arclength(lan, ll, queries, ctx, tag=""):
@@ -242,6 +277,7 @@ def s_routes(tier):
             "range_mask": st.one_of(st.just(0), st.integers(1, 255)),
             # lanelets with a right-angle bend: same centre-line length, shorter inner boundary
             "bends": st.one_of(st.just([False] * n), st.lists(st.booleans(), min_size=n, max_size=n)),
+            "drop_mask": st.one_of(st.just(0), st.just(0), st.integers(1, 255)),
         })
     return st.integers(2, 8).flatmap(graph)
 
@@ -287,7 +323,17 @@ def check_routes(r, ctx):
             left, centre, right = [[0.0, y + 1], [ln, y + 1]], [[0.0, y], [ln, y]], [[0.0, y - 1], [ln, y - 1]]
         lanelets.append(Lanelet(np.array(left), np.array(centre), np.array(right), i + 1,
                                 predecessor=[p + 1 for p in pred[i]], successor=[s + 1 for s in succ[i]]))
-    net = LaneletNetwork.create_from_lanelet_list(lanelets, cleanup_ids=False)
+    drop = {i for i in range(n) if (r.get("drop_mask", 0) >> i) & 1 and i != r["start"]}
+    if drop:
+        # the network is built from a subset of the lanelets (default cleanup of references to lanelets that are not
+        # part of it): the routes are those of the induced sub-graph
+        lanelets = [la for i, la in enumerate(lanelets) if i not in drop]
+        succ = {i: [j for j in succ[i] if j not in drop] for i in range(n) if i not in drop}
+        pred = {i: [j for j in pred[i] if j not in drop] for i in range(n) if i not in drop}
+        net = LaneletNetwork.create_from_lanelet_list(lanelets)
+        ctx.label("network-from-subset")
+    else:
+        net = LaneletNetwork.create_from_lanelet_list(lanelets, cleanup_ids=False)
     # the "< range" rule is decided exactly when the library's lanelet lengths are exactly the recipe's; otherwise
     # (rounding inside the length computation) an accumulated length within 1e-9 of the range is a don't-care
     exact = all(float(la.distance[-1]) == r["lengths"][la.lanelet_id - 1] for la in lanelets)
@@ -352,7 +398,7 @@ def _has_cycle(succ, n):
                 return True
         color[u] = 2
         return False
-    return any(color[i] == 0 and dfs(i) for i in range(n))
+    return any(color[i] == 0 and dfs(i) for i in range(n) if i in succ)
 
 
 FACETS = [
